@@ -22,7 +22,7 @@ order, which is exactly what C02 claims for the engine.
 ENGINE_CMDS = ('fail', 'succeed', 'pause', 'noop')
 
 
-def reference(spec, outcome, guard):
+def reference(spec, outcome, guard, ignore_pause=False):
     tasks = {t.get_name(): t for t in spec.get_tasks()}
 
     def inbound(n):
@@ -42,6 +42,12 @@ def reference(spec, outcome, guard):
         clauses = []
         if st == 'ERROR':
             clauses.append(('on-error', spec.get_on_error_clause(name)))
+        if st == 'SKIPPED':
+            sk = [(t, c, p) for t, c, p in spec.get_on_skip_clause(name)
+                  if not c or guard(name, c)]
+            if sk:
+                return [(t, 'on-skip') for t, c, p in sk]
+            clauses.append(('on-success', spec.get_on_success_clause(name)))
         if st == 'SUCCESS':
             clauses.append(('on-success', spec.get_on_success_clause(name)))
         if st in ('SUCCESS', 'ERROR'):
@@ -110,7 +116,7 @@ def reference(spec, outcome, guard):
                 if tgt == 'succeed':
                     forced = forced or 'SUCCESS'
                     break
-                if tgt == 'pause':
+                if tgt == 'pause' and not ignore_pause:
                     forced = forced or 'PAUSED'
                 continue
             routed[name].add(tgt)
